@@ -14,9 +14,11 @@ import os, sys, subprocess, json, shutil, tempfile, re, time
 
 pid, which = sys.argv[1], sys.argv[2]
 extra = [a for a in sys.argv[3:] if not a.startswith("--")]
-rnd = 2 if "--round2" in sys.argv else 1
-src = ("/tmp/mut_%s/_mut" if rnd == 1 else "/tmp/mut2_%s/_mut") % pid
-label = which if rnd == 1 else {"A": "C", "B": "D"}[which]       # round 2 changes are kept as <PID>-C / <PID>-D
+rnd = 3 if "--round3" in sys.argv else 2 if "--round2" in sys.argv else 1
+src = {1: "/tmp/mut_%s/_mut", 2: "/tmp/mut2_%s/_mut", 3: "/tmp/mut3_%s/_mut"}[rnd] % pid
+label = which if rnd == 1 else {"A": "C", "B": "D"}[which]       # later rounds are kept as <PID>-C / <PID>-D
+if rnd == 3 and os.path.exists("/verif/seeded/%s-%s" % (pid, label)) and json.load(open("/verif/seeded/%s-%s/meta.json" % (pid, label))).get("round") == 2:
+    label = {"A": "E", "B": "F"}[which]
 dst = "/verif/seeded/%s-%s" % (pid, label)
 patch = os.path.join(src, which + ".diff")
 
